@@ -526,7 +526,14 @@ func drive(t *testing.T, kind, gname string) {
 			g = gs[1]
 			rec.Count("special_names_universe_cases", 1)
 		}
-		expr := g.Top(rt)
+		var expr string
+		if rapid.IntRange(0, 4).Draw(rt, "directed") == 4 {
+			// directed: a label excluded on one side and re-attached through a 2-3 name list (every order)
+			expr = g.Reattach(rt)
+			rec.Count("directed_reattach_cases", 1)
+		} else {
+			expr = g.Top(rt)
+		}
 		tmpl := ""
 		if kind == "template" {
 			tmpl = genTemplate(rt, g.U)
